@@ -149,6 +149,9 @@ MUTANTS = [
     M('C20-basis-may-be-empty', 'C20', 'Uniform::new', (PACK, '        basis.append(&mut self.cell.get_degrees_of_freedom());', '        if self.occupied_sites.len() > 1 {\n            basis.append(&mut self.cell.get_degrees_of_freedom());\n        }')),
     M('C20-basis-cleared-per-site', 'C20', 'Uniform::new', (PACK, '            basis.append(&mut site.get_basis(1));', '            basis.clear();\n            basis.append(&mut site.get_basis(1));')),
     M('C20-assert-on-input', 'C20', 'explicit-panic', (SITE, '        let dof = self.wyckoff.degrees_of_freedom();', '        let dof = self.wyckoff.degrees_of_freedom();\n        assert!(rot_symmetry < 7);')),
+    M('C18-cooling-before-the-inner-loop', 'C18', 'R1/decision-sees-the-temperature-of-its-iteration',
+      (OPT, '            kt *= self.kt_ratio;\n', ''),
+      (OPT, '            let score_start = score_current;\n', '            let score_start = score_current;\n            kt *= self.kt_ratio;\n')),
     M('C20-capacity-overflow', 'C20', 'Overflow:Mul', (PACK, '        let mut basis: Vec<StandardBasis> = vec![];', '        let mut basis: Vec<StandardBasis> =\n            Vec::with_capacity(self.occupied_sites.len() * (usize::MAX / 4));')),
     M('C20-inner-loop-other-bound', 'C20', 'R2/inner-trip-count', (OPT, 'for _ in 0..self.inner_steps {', 'for _ in 0..self.steps {')),
 ]
